@@ -408,3 +408,168 @@ func replayCLI(p *PathResult, mod *Model, id string) (bool, string) {
 	}
 	return false, detail
 }
+
+// atlasLoopPost: the Atlas branch of the redact command after a successful download of n
+// files (the download itself is cut; it is the subject of the library-level harness).
+// C16: file i is redacted into <outputFile>.<i> with the download called for the flags given.
+// C17: every way out of the command (return or exit) has removed all downloaded files.
+func atlasLoopPost(which string) func(cr *checkRun) {
+	return func(cr *checkRun) {
+		solver := NewSolver()
+		defer solver.Close()
+		seen := map[string]bool{}
+		add := func(job *Job, id, result, details string) {
+			ob := Obligation{ID: job.Name + "#" + id, Result: result, Details: details}
+			if result == "violated" {
+				if seen[ob.ID] {
+					return
+				}
+				seen[ob.ID] = true
+			}
+			cr.extraOb = append(cr.extraOb, ob)
+		}
+		for ji, jr := range cr.results {
+			job := cr.jobs[ji]
+			if job.Harness != "H_c18" {
+				continue
+			}
+			for _, p := range jr.Paths {
+				if p.End != "done" && p.End != "exit" {
+					continue
+				}
+				valid := func(q ...*Term) bool {
+					r, _ := solver.Check(append(append([]*Term{}, p.PC...), q...), false)
+					return r == Unsat
+				}
+				dl := -1
+				for i, ev := range p.Events {
+					if ev.Kind == "call:(*AtlasClient).DownloadClusterLogs" {
+						dl = i
+					}
+				}
+				if dl < 0 {
+					continue
+				}
+				// the download succeeded iff no envfail directly follows it
+				dlFailed := dl+1 < len(p.Events) && p.Events[dl+1].Kind == "envfail"
+				var files []*Term
+				for i := 0; ; i++ {
+					v, ok := p.Inputs[fmt.Sprintf("tmpfile%d", i)]
+					if !ok {
+						break
+					}
+					files = append(files, v.(Str).Term())
+				}
+				if which == "C16" {
+					ev := p.Events[dl]
+					// args: receiver, ctx, publicKey, privateKey, projectID, clusterName, start, end
+					if len(ev.Args) >= 8 {
+						eqStr := func(arg Value, flag string, id string) {
+							fv, ok := p.Inputs[flag]
+							a, isS := arg.(Str)
+							if !ok || !isS {
+								return
+							}
+							res := "violated"
+							if a.Term() == fv.(Str).Term() || valid(TNot(TEq(a.Term(), fv.(Str).Term()))) {
+								res = "discharged"
+							}
+							add(job, "download-called-with:"+id, res, "")
+						}
+						eqStr(ev.Args[4], "flag.atlasProjectId", "project")
+						eqStr(ev.Args[5], "flag.atlasClusterName", "cluster")
+						// key pair: flag, else environment
+						for k, nm := range map[int][2]string{2: {"flag.atlasPublicKey", "env.ATLAS_PUBLIC_KEY"}, 3: {"flag.atlasPrivateKey", "env.ATLAS_PRIVATE_KEY"}} {
+							a, isS := ev.Args[k].(Str)
+							fv, ok := p.Inputs[nm[0]]
+							if !isS || !ok {
+								continue
+							}
+							want := TIte(TEq(fv.(Str).Term(), TStr("")), TVar(nm[1], SStr), fv.(Str).Term())
+							res := "violated"
+							if valid(TNot(TEq(a.Term(), want))) {
+								res = "discharged"
+							}
+							add(job, "download-called-with:"+nm[0], res, "")
+						}
+						// window: the flags when given, else the last seven days (start before end)
+						st, en := numTermInt(ev.Args[6].(Num)), numTermInt(ev.Args[7].(Num))
+						fs, fe := numTermInt(p.Inputs["flag.atlasLogStartDate"].(Num)), numTermInt(p.Inputs["flag.atlasLogEndDate"].(Num))
+						given := TNot(TEq(fs, TInt(0)))
+						res := "violated"
+						if valid(given, TNot(TAnd(TEq(st, fs), TEq(en, fe)))) && valid(TNot(given), TNot(TAnd(TEq(TSub(en, st), TInt(604800)), TCmp("<", st, en)))) {
+							res = "discharged"
+						}
+						add(job, "download-window", res, "")
+					}
+					if !dlFailed {
+						k := 0
+						for _, e2 := range p.Events[dl+1:] {
+							if e2.Kind != "call:ProcessMongoLogFile" {
+								continue
+							}
+							// args: fileReader, filePath, outWriter, bar
+							okFile := k < len(files) && e2.Args[1].(Str).Term() == files[k]
+							wantOut := strConcat(p.Inputs["flag.outputFile"].(Str), mkStr(fmt.Sprintf(".%d", k)))
+							okOut := false
+							if w, ok := e2.Args[2].(Iface); ok {
+								if o, ok := w.v.(*Opaque); ok && o != nil {
+									if f, ok := o.data.(*fileObj); ok {
+										okOut = f.name.Term() == wantOut.Term() || valid(TNot(TEq(f.name.Term(), wantOut.Term())))
+									}
+								}
+							}
+							res := "discharged"
+							if !okFile || !okOut {
+								res = "violated"
+							}
+							add(job, fmt.Sprintf("file-%d-redacted-into-output-%d", k, k), res, fmt.Sprintf("file ok=%v output ok=%v", okFile, okOut))
+							k++
+						}
+						if p.End == "done" {
+							res := "discharged"
+							if k != len(files) {
+								res = "violated"
+							}
+							add(job, "every-file-processed", res, fmt.Sprintf("%d of %d", k, len(files)))
+						}
+					}
+				}
+				if which == "C17" {
+					live := map[*Term]bool{}
+					for _, ev := range p.Events {
+						switch ev.Kind {
+						case "createtemp":
+							live[ev.Args[0].(Str).Term()] = true
+						case "remove":
+							delete(live, ev.Args[0].(Str).Term())
+						}
+					}
+					if dlFailed {
+						continue // the download cleans up after itself (library-level harness)
+					}
+					res := "discharged"
+					if len(live) > 0 {
+						res = "violated"
+					}
+					how := "return"
+					if p.End == "exit" {
+						how = "exit"
+					}
+					add(job, "downloaded-files-removed-on-"+how, res, fmt.Sprintf("%d downloaded file(s) left when the command ends by %s", len(live), how))
+				}
+			}
+		}
+	}
+}
+
+func atlasMainJob() *Job {
+	j := &Job{Name: "redact-atlas-loop", Harness: "H_c18", Lines: map[string]*Template{}, NoNative: true, Params: map[string]string{
+		"subcommand": "redact", "symenv": "ATLAS_PUBLIC_KEY,ATLAS_PRIVATE_KEY", "fs.kinds": "absent,file", "createMayFail": "yes",
+		"cut.files": "2", "cutMayFail": "ProcessMongoLogFile,countLines,(*AtlasClient).DownloadClusterLogs"}}
+	j.cutSet = map[string]bool{}
+	for _, c := range cliCut {
+		j.cutSet[c] = true
+	}
+	return j
+}
